@@ -52,7 +52,9 @@ def symbol_ok(parts, data, before, after):
 
 SETS = [(None, None), (b"]", b"["), (b"}", b";"), (b":", b"\n"), (b"]}", b"{["), (b"a", b"a"),
         (b"^", b";"), (b"^]", b"="), (b"\\", b";"), (b"a-c", b";"), (b";", b"]"), (b"-", b"^"),
-        (b"]", b"\\")]
+        (b"]", b"\\"),
+        # an empty set is a set: cut nowhere before / nowhere after / nowhere at all
+        (b"", b";"), (b"}", b""), (b"", b"")]
 
 
 def run(ck: Check):
@@ -65,7 +67,9 @@ def run(ck: Check):
         ck.count(atom)
         if t is None:
             if line != "err LithiumError":
-                ck.violation(f"[{atom}] load raised {line}", {"atom": atom, "data": data.hex()})
+                ck.violation(f"[{atom} sets={sets}] load raised {line} on {data!r}",
+                             {"atom": atom, "data": data.hex(), "cut_before": None if sets[0] is None else sets[0].hex(),
+                              "cut_after": None if sets[1] is None else sets[1].hex()})
             return
         if len(t.parts) >= 2:
             ck.nontrivial((atom, sets, data))
